@@ -1,1 +1,398 @@
 //! verification hooks used by the check of property C15
+//!
+//! Read-only views of typed statements (canonical S-expression of expression trees,
+//! canonical type / value strings) and thin wrappers around the two string-escaping
+//! functions. Nothing in here changes behaviour.
+
+use crate::ast::{BinaryOperator, ProcedureKind, UnaryOperator};
+use crate::pretty_print::PrettyPrint;
+use crate::typed_ast::{DefineVariable, Expression, Statement, StringPart, Type};
+use crate::value::Value;
+
+/// `pretty_print::escape_numbat_string`
+pub fn escape_numbat_string(s: &str) -> String {
+    crate::pretty_print::escape_numbat_string(s).to_string()
+}
+
+/// the parser's `strip_and_escape` (which slices off the first and the last *byte*); `None` where
+/// the real function would panic (fewer than two bytes, or a multi-byte first/last character)
+pub fn strip_and_escape(s: &str) -> Option<String> {
+    if s.len() < 2 || !s.is_char_boundary(1) || !s.is_char_boundary(s.len() - 1) {
+        return None;
+    }
+    Some(crate::parser::verif_strip_and_escape(s).to_string())
+}
+
+/// text as code points `97.98.99` (`-` for the empty text): the only encoding of names and string
+/// contents used on the wire
+pub fn cps(s: &str) -> String {
+    if s.is_empty() {
+        return "-".to_string();
+    }
+    s.chars()
+        .map(|c| (c as u32).to_string())
+        .collect::<Vec<_>>()
+        .join(".")
+}
+
+fn binop_name(op: &BinaryOperator) -> &'static str {
+    match op {
+        BinaryOperator::Add => "add",
+        BinaryOperator::Sub => "sub",
+        BinaryOperator::Mul => "mul",
+        BinaryOperator::Div => "div",
+        BinaryOperator::Power => "pow",
+        BinaryOperator::ConvertTo => "conv",
+        BinaryOperator::LessThan => "lt",
+        BinaryOperator::GreaterThan => "gt",
+        BinaryOperator::LessOrEqual => "le",
+        BinaryOperator::GreaterOrEqual => "ge",
+        BinaryOperator::Equal => "eq",
+        BinaryOperator::NotEqual => "ne",
+        BinaryOperator::LogicalAnd => "and",
+        BinaryOperator::LogicalOr => "or",
+    }
+}
+
+/// Canonical S-expression of a typed expression tree (constructors of `typed_ast::Expression`,
+/// no spans, no types). Atoms are code-point encoded. A scalar carries the bit pattern of its
+/// value and its printed text (number formatting is not part of the printer model).
+pub fn expr_sexpr(e: &Expression) -> String {
+    let mut o = String::new();
+    sx(e, &mut o);
+    o
+}
+
+fn sx_list(es: &[Expression], o: &mut String) {
+    for a in es {
+        o.push(' ');
+        sx(a, o);
+    }
+}
+
+fn sx(e: &Expression, o: &mut String) {
+    match e {
+        Expression::Scalar { value, .. } => {
+            o.push_str(&format!(
+                "(num {:016x} {})",
+                value.to_f64().to_bits(),
+                cps(&value.pretty_print())
+            ));
+        }
+        Expression::Identifier { name, .. } => o.push_str(&format!("(id {})", cps(name))),
+        Expression::UnitIdentifier {
+            prefix, full_name, ..
+        } => o.push_str(&format!(
+            "(unit {} {})",
+            cps(&prefix.as_string_long()),
+            cps(full_name)
+        )),
+        Expression::UnaryOperator { op, expr, .. } => {
+            match op {
+                UnaryOperator::Negate => o.push_str("(neg "),
+                UnaryOperator::LogicalNeg => o.push_str("(not "),
+                UnaryOperator::Factorial(n) => o.push_str(&format!("(fact {} ", n.get())),
+            }
+            sx(expr, o);
+            o.push(')');
+        }
+        Expression::BinaryOperator { op, lhs, rhs, .. } => {
+            o.push_str(&format!("(bin {} ", binop_name(op)));
+            sx(lhs, o);
+            o.push(' ');
+            sx(rhs, o);
+            o.push(')');
+        }
+        Expression::BinaryOperatorForDate { op, lhs, rhs, .. } => {
+            o.push_str(&format!("(bind {} ", binop_name(op)));
+            sx(lhs, o);
+            o.push(' ');
+            sx(rhs, o);
+            o.push(')');
+        }
+        Expression::FunctionCall { name, args, .. } => {
+            o.push_str(&format!("(call {}", cps(name)));
+            sx_list(args, o);
+            o.push(')');
+        }
+        Expression::CallableCall { callable, args, .. } => {
+            o.push_str("(ccall ");
+            sx(callable, o);
+            sx_list(args, o);
+            o.push(')');
+        }
+        Expression::Boolean(_, b) => o.push_str(if *b { "(bool 1)" } else { "(bool 0)" }),
+        Expression::Condition {
+            condition,
+            then_expr,
+            else_expr,
+            ..
+        } => {
+            o.push_str("(if ");
+            sx(condition, o);
+            o.push(' ');
+            sx(then_expr, o);
+            o.push(' ');
+            sx(else_expr, o);
+            o.push(')');
+        }
+        Expression::String(_, parts) => {
+            o.push_str("(str");
+            for p in parts {
+                match p {
+                    StringPart::Fixed(s) => o.push_str(&format!(" (fix {})", cps(s))),
+                    StringPart::Interpolation {
+                        expr,
+                        format_specifiers,
+                        ..
+                    } => {
+                        o.push_str(" (interp ");
+                        sx(expr, o);
+                        match format_specifiers {
+                            Some(f) => o.push_str(&format!(" (spec {}))", cps(f))),
+                            None => o.push_str(" (nospec))"),
+                        }
+                    }
+                }
+            }
+            o.push(')');
+        }
+        Expression::InstantiateStruct {
+            fields,
+            struct_info,
+            ..
+        } => {
+            o.push_str(&format!("(mk {}", cps(&struct_info.name)));
+            for (n, e) in fields {
+                o.push_str(&format!(" (f {} ", cps(n)));
+                sx(e, o);
+                o.push(')');
+            }
+            o.push(')');
+        }
+        Expression::AccessField {
+            expr, field_name, ..
+        } => {
+            o.push_str("(get ");
+            sx(expr, o);
+            o.push_str(&format!(" {})", cps(field_name)));
+        }
+        Expression::List { elements, .. } => {
+            o.push_str("(list");
+            sx_list(elements, o);
+            o.push(')');
+        }
+        Expression::TypedHole(..) => o.push_str("(hole)"),
+    }
+}
+
+fn define_variable_exprs<'a, 'b>(
+    role: &str,
+    dv: &'b DefineVariable<'a>,
+    out: &mut Vec<(String, &'b Expression<'a>)>,
+) {
+    out.push((format!("{}:{}", role, dv.name), &dv.expr));
+}
+
+/// every expression position of a statement, in printing order, with a role label
+fn statement_expressions<'a, 'b>(s: &'b Statement<'a>) -> Vec<(String, &'b Expression<'a>)> {
+    let mut out = Vec::new();
+    match s {
+        Statement::Expression(e) => out.push(("expr".to_string(), e)),
+        Statement::DefineVariable(dv) => define_variable_exprs("let", dv, &mut out),
+        Statement::DefineFunction {
+            body,
+            local_variables,
+            ..
+        } => {
+            if let Some(b) = body {
+                out.push(("fnbody".to_string(), b));
+            }
+            for dv in local_variables {
+                define_variable_exprs("where", dv, &mut out);
+            }
+        }
+        Statement::DefineDimension(..) => {}
+        Statement::DefineBaseUnit { .. } => {}
+        Statement::DefineDerivedUnit { expr, .. } => out.push(("unitdef".to_string(), expr)),
+        Statement::ProcedureCall { args, .. } => {
+            for a in args {
+                out.push(("procarg".to_string(), a));
+            }
+        }
+        Statement::DefineStruct(_) => {}
+    }
+    out
+}
+
+/// (role, S-expression, text numbat prints for that expression) for every expression position
+pub fn statement_expr_dump(s: &Statement) -> Vec<(String, String, String)> {
+    statement_expressions(s)
+        .into_iter()
+        .map(|(role, e)| (role, expr_sexpr(e), e.pretty_print().to_string()))
+        .collect()
+}
+
+pub fn statement_kind(s: &Statement) -> &'static str {
+    match s {
+        Statement::Expression(_) => "expression",
+        Statement::DefineVariable(_) => "let",
+        Statement::DefineFunction { .. } => "fn",
+        Statement::DefineDimension(..) => "dimension",
+        Statement::DefineBaseUnit { .. } => "base-unit",
+        Statement::DefineDerivedUnit { .. } => "derived-unit",
+        Statement::ProcedureCall { kind, .. } => match kind {
+            ProcedureKind::Print => "print",
+            ProcedureKind::Assert => "assert",
+            ProcedureKind::AssertEq => "assert_eq",
+            ProcedureKind::Type => "type",
+        },
+        Statement::DefineStruct(_) => "struct",
+    }
+}
+
+/// the name a definition introduces
+pub fn statement_defined_name(s: &Statement) -> Option<String> {
+    match s {
+        Statement::DefineVariable(dv) => Some(dv.name.to_string()),
+        Statement::DefineFunction { function_name, .. } => Some(function_name.to_string()),
+        Statement::DefineDimension(n, _) => Some(n.to_string()),
+        Statement::DefineBaseUnit { name, .. } => Some(name.to_string()),
+        Statement::DefineDerivedUnit { name, .. } => Some(name.to_string()),
+        Statement::DefineStruct(info) => Some(info.name.to_string()),
+        _ => None,
+    }
+}
+
+/// Canonical text of the type the checker gave the statement (quantified variables are named
+/// A, B, … by position, so the text does not depend on the names the user chose).
+pub fn statement_type(s: &Statement) -> String {
+    match s {
+        Statement::Expression(e) => e.get_type_scheme().pretty_print().to_string(),
+        Statement::DefineVariable(dv) => dv.type_scheme.pretty_print().to_string(),
+        Statement::DefineFunction {
+            fn_type,
+            local_variables,
+            ..
+        } => {
+            let mut t = fn_type.pretty_print().to_string();
+            for dv in local_variables {
+                t.push_str(&format!(
+                    " ; where {}: {}",
+                    dv.name,
+                    dv.type_scheme.pretty_print()
+                ));
+            }
+            t
+        }
+        Statement::DefineDimension(_, dexprs) => format!("dimension/{}", dexprs.len()),
+        Statement::DefineBaseUnit { type_scheme, .. } => type_scheme.pretty_print().to_string(),
+        Statement::DefineDerivedUnit { type_scheme, .. } => type_scheme.pretty_print().to_string(),
+        Statement::ProcedureCall { args, .. } => args
+            .iter()
+            .map(|a| a.get_type_scheme().pretty_print().to_string())
+            .collect::<Vec<_>>()
+            .join(" , "),
+        Statement::DefineStruct(info) => Type::Struct(Box::new(info.clone())).to_string(),
+    }
+}
+
+/// decorators of a unit definition, as the data the parser produced (not as printed text)
+pub fn statement_decorators(s: &Statement) -> Vec<String> {
+    let ds = match s {
+        Statement::DefineVariable(dv) => &dv.decorators,
+        Statement::DefineFunction { decorators, .. } => decorators,
+        Statement::DefineBaseUnit { decorators, .. } => decorators,
+        Statement::DefineDerivedUnit { decorators, .. } => decorators,
+        _ => return vec![],
+    };
+    ds.iter()
+        .map(|d| {
+            use crate::decorator::Decorator::*;
+            match d {
+                MetricPrefixes => "metric_prefixes".to_string(),
+                BinaryPrefixes => "binary_prefixes".to_string(),
+                Abbreviation => "abbreviation".to_string(),
+                Aliases(a) => format!(
+                    "aliases({})",
+                    a.iter()
+                        .map(|(n, ap, _)| match ap {
+                            None => n.to_string(),
+                            Some(ap) => format!("{}:{}{}", n, ap.short as u8, ap.long as u8),
+                        })
+                        .collect::<Vec<_>>()
+                        .join(",")
+                ),
+                Url(u) => format!("url({})", cps(u)),
+                Name(u) => format!("name({})", cps(u)),
+                Description(u) => format!("description({})", cps(u)),
+                Example(c, d) => format!(
+                    "example({},{})",
+                    cps(c),
+                    d.as_ref().map(|d| cps(d)).unwrap_or_else(|| "none".into())
+                ),
+            }
+        })
+        .collect()
+}
+
+/// Canonical text of a run-time value: numbers as bit patterns, units as their full factor text.
+pub fn value_canon(v: &Value) -> String {
+    match v {
+        Value::Quantity(q) => format!(
+            "q:{:016x}:{}",
+            q.unsafe_value().to_f64().to_bits(),
+            q.unit()
+        ),
+        Value::Boolean(b) => format!("b:{}", b),
+        Value::String(s) => format!("s:{}", cps(s)),
+        Value::DateTime(dt) => format!("dt:{}", dt.timestamp().as_nanosecond()),
+        Value::FunctionReference(f) => format!("fn:{}", f),
+        Value::FormatSpecifiers(f) => format!("fmt:{:?}", f),
+        Value::StructInstance(info, vals) => format!(
+            "struct:{}{{{}}}",
+            info.name,
+            vals.iter().map(value_canon).collect::<Vec<_>>().join(",")
+        ),
+        Value::List(l) => format!(
+            "[{}]",
+            l.iter().map(value_canon).collect::<Vec<_>>().join(",")
+        ),
+    }
+}
+
+/// the value in base units (bit pattern and base-unit text), for comparisons that must not depend
+/// on the order of unit factors
+pub fn value_base_canon(v: &Value) -> String {
+    match v {
+        Value::Quantity(q) => {
+            let b = q.to_base_unit_representation();
+            format!(
+                "q:{:016x}:{}",
+                b.unsafe_value().to_f64().to_bits(),
+                b.unit()
+            )
+        }
+        Value::StructInstance(info, vals) => format!(
+            "struct:{}{{{}}}",
+            info.name,
+            vals.iter()
+                .map(value_base_canon)
+                .collect::<Vec<_>>()
+                .join(",")
+        ),
+        Value::List(l) => format!(
+            "[{}]",
+            l.iter().map(value_base_canon).collect::<Vec<_>>().join(",")
+        ),
+        other => value_canon(other),
+    }
+}
+
+/// base representation of a named dimension in the session (`None` if it is not defined)
+pub fn dimension_base_repr(ctx: &crate::Context, name: &str) -> Option<String> {
+    ctx.dimension_registry()
+        .get_base_representation_for_name(name)
+        .ok()
+        .map(|b| b.pretty_print().to_string())
+}
